@@ -8,6 +8,7 @@ import Driver.Validate
 import Driver.KeyedLock
 import Driver.CliConfig
 import Driver.RunLimit
+import Driver.IterUtils
 
 def main (args : List String) : IO UInt32 := do
   let stdin ← IO.getStdin
@@ -21,4 +22,5 @@ def main (args : List String) : IO UInt32 := do
   | ["keyedlock"] => Drv.loop stdin Drv.KeyedLock.step {}; return 0
   | ["cliconfig"] => Drv.loop stdin Drv.CliConfig.step (CliConfig.init CliConfig.srcCfg); return 0
   | ["runlimit"] => Drv.loop stdin Drv.RunLimit.step {}; return 0
+  | ["iterutils"] => Drv.loop stdin Drv.IterUtils.step .none; return 0
   | _ => IO.eprintln "usage: wfdriver <model>"; return 2
